@@ -24,13 +24,15 @@ func init() { props["C04"] = runC04 }
 
 var accountNames = []string{"owner", "amy", "bob", "cat", "dan", "eve", "fay", "gus"}
 
+// the six defined levels plus values outside the enum (the wire type is an open int32)
 var allPerms = []aclrecordproto.AclUserPermissions{
 	aclrecordproto.AclUserPermissions_None, aclrecordproto.AclUserPermissions_Owner, aclrecordproto.AclUserPermissions_Admin,
 	aclrecordproto.AclUserPermissions_Writer, aclrecordproto.AclUserPermissions_Reader, aclrecordproto.AclUserPermissions_Guest,
+	-1, 6, 1000,
 }
 
 func (w *world) anyPerm(label string) aclrecordproto.AclUserPermissions {
-	return allPerms[w.r.Src.Weighted(label, []int{1, 2, 4, 3, 3, 2})]
+	return allPerms[w.r.Src.Weighted(label, []int{2, 4, 8, 6, 6, 4, 1, 1, 1})]
 }
 
 func (w *world) ident(a *simlib.Account) []byte {
@@ -120,7 +122,7 @@ func (w *world) byzContent(author *simlib.Account) (*aclrecordproto.AclContentVa
 		k, _, err := crypto.GenerateRandomEd25519KeyPair()
 		must(err)
 		kb, _ := k.GetPublic().Marshall()
-		t := aclrecordproto.AclInviteType(s.Choose("invtype", 2))
+		t := aclrecordproto.AclInviteType(s.Weighted("invtype", []int{4, 4, 1, 1})) // 2 and 3 are not defined invite types
 		var enc []byte
 		if s.Flip("withkey", 0.8) {
 			enc = []byte("encrypted-read-key")
@@ -432,7 +434,7 @@ func (w *world) checkDeltaOn(l list.AclList, before preState, author, desc, k st
 		// the author's own entry
 		if b.perm == list.AclPermissionsNone && a.perm != list.AclPermissionsNone {
 			// an outsider gained access by its own record: only through a live open invite, within its permissions
-			if rank(a.perm) == 0 || !hasOpenInviteAtLeast(before.open, a.perm) {
+			if !hasOpenInviteAtLeast(before.open, a.perm) {
 				fail("outsider-access", "%s gave itself %s and no live anyone-can-join invite allows that (open invites: %v)", n, permName(a.perm), before.open)
 			}
 		} else if b.perm != a.perm && !isManager(authorPerm) {
@@ -460,8 +462,8 @@ func (w *world) checkDeltaOn(l list.AclList, before preState, author, desc, k st
 		if aok && ap == list.AclPermissionsAdmin && !(bok && bp == list.AclPermissionsAdmin) && authorPerm != list.AclPermissionsOwner {
 			fail("admin-role", "open invite #%d now grants Admin and the author is not the owner", idx)
 		}
-		if aok && rank(ap) == 0 {
-			fail("invite-permissions", "open invite #%d grants %s", idx, permName(ap))
+		if aok && ap == list.AclPermissionsOwner {
+			fail("ownership", "open invite #%d grants Owner", idx)
 		}
 	}
 	// pending requests of other accounts
@@ -486,7 +488,12 @@ func (w *world) checkDeltaOn(l list.AclList, before preState, author, desc, k st
 
 func hasOpenInviteAtLeast(open map[int]list.AclPermissions, p list.AclPermissions) bool {
 	for _, ip := range open {
-		if rank(ip) >= rank(p) && rank(p) > 0 {
+		// within the invite's permissions: the same level (whatever it is) or a lower defined one
+		if ip == p || (rank(ip) >= rank(p) && rank(p) > 0) {
+			return true
+		}
+		// an invite carrying an undefined level still grants something: the least access (Reader) is within it
+		if p == list.AclPermissionsReader && rank(ip) == 0 && ip != list.AclPermissionsNone && ip != list.AclPermissionsGuest && ip != list.AclPermissionsOwner {
 			return true
 		}
 	}
@@ -537,6 +544,7 @@ func runC04(r *core.Run) {
 	r.SetCfg("steps", steps)
 	r.SetCfg("byzantine_percent", byzShare)
 	w.bootstrap(func(before preState, k int) { w.checkDelta(before, k) })
+	w.template(func(before preState, k int) { w.checkDelta(before, k) })
 	for i := 0; i < steps; i++ {
 		before := w.pre()
 		var k int
